@@ -36,6 +36,10 @@ Lemma pres_set_handler x h : keeps x (set_handler x h). Proof. pres_simple. Qed.
 Lemma pres_set_fold_counter x n : keeps x (set_fold_counter x n). Proof. pres_simple. Qed.
 Lemma pres_set_ext x e : keeps x (set_ext x e). Proof. pres_simple. Qed.
 Lemma pres_with_streams x m : keeps x (with_streams x m). Proof. pres_simple. Qed.
+Lemma pres_all_fold_start x : keeps x (all_fold_start x). Proof. pres_simple. Qed.
+Lemma pres_all_fold_end x : keeps x (all_fold_end x). Proof. pres_simple. Qed.
+Lemma pres_all_next_before x : keeps x (all_next_before x). Proof. pres_simple. Qed.
+Lemma pres_all_next_after x : keeps x (all_next_after x). Proof. pres_simple. Qed.
 Lemma pres_make_incomplete x : keeps x (make_incomplete x). Proof. pres_simple. Qed.
 Lemma pres_flush_complete x : keeps x (flush_complete x). Proof. pres_simple. Qed.
 Lemma pres_call_end x c : keeps x (call_end x c). Proof. pres_simple. Qed.
@@ -50,7 +54,7 @@ Lemma pkeeps_set_scalar_value x n v : pkeeps x (set_scalar_value x n v).
 Proof. unfold set_scalar_value. destruct (Scalars.set_value vagg (x_scalars x) n v) as [[m b]|e]; cbn; auto. pres_simple. Qed.
 
 #[global] Hint Resolve pres_refl pres_set_scalars pres_set_canons pres_set_next_peers pres_set_last_error pres_set_complete
-  pres_set_calls pres_set_cids pres_set_handler pres_set_fold_counter pres_set_ext pres_with_streams pres_make_incomplete pres_flush_complete
+  pres_set_calls pres_set_cids pres_set_handler pres_set_fold_counter pres_set_ext pres_with_streams pres_all_fold_start pres_all_fold_end pres_all_next_before pres_all_next_after pres_make_incomplete pres_flush_complete
   pres_call_end pres_record_cid pres_maybe_set_prev_state : keeps.
 
 
@@ -359,10 +363,10 @@ Section Faithful.
     destruct i.
     - (* call *) cbn [Exec.exec]. apply exec_call_ok; auto.
     - (* ap *) cbn [Exec.exec]. apply wrap_ok. destruct r; [apply exec_ap_ok; auto | apply esi_body_ok; auto].
-    - (* ap map *) exact I.
-    - (* canon *) cbn [Exec.exec]. apply wrap_ok. apply esi_body_ok; auto.
-    - exact I.
-    - exact I.
+    - (* ap map *) first [exact I | cbn [Exec.exec]; apply wrap_ok; apply esi_body_ok; auto].
+    - (* canon *) first [exact I | cbn [Exec.exec]; apply wrap_ok; apply esi_body_ok; auto].
+    - (* canon map *) first [exact I | cbn [Exec.exec]; apply wrap_ok; apply esi_body_ok; auto].
+    - (* canon stream map scalar *) first [exact I | cbn [Exec.exec]; apply wrap_ok; apply esi_body_ok; auto].
     - (* seq *) cbn [Exec.exec]. apply wrap_ok. cbn [swallow_free] in P. apply andb_true_iff in P as (P1 & P2).
       pose proof (IH i1 (flush_complete x) P1 (good_keeps _ _ (pres_flush_complete x) G)) as H1.
       destruct (exec fuel i1 (flush_complete x)) as [x1|e x1|s| |w]; try exact I.
@@ -393,9 +397,8 @@ Section Faithful.
     - (* fold scalar *) cbn [Exec.exec]. apply wrap_ok. cbn [swallow_free] in P. apply andb_true_iff in P as (P1 & P2).
       destruct (create_fold_iterable x it) as [[|itb]|e|s|w]; try exact I.
       + exact G.
-      + set (x1 := set_canons (set_scalars x (Scalars.meet_fold_start vagg (x_scalars x))) (Scalars.meet_fold_start canon_wp (x_canons x))).
-        assert (G1 : good_ctx x1).
-        { eapply good_keeps; [|exact G]. eapply pres_trans; [apply pres_set_scalars | apply pres_set_canons]. }
+      + set (x1 := all_fold_start x).
+        assert (G1 : good_ctx x1) by (eapply good_keeps; [apply pres_all_fold_start | exact G]).
         destruct (iter_get (x_iterables x1) (v_name iter)); [exact I|].
         match goal with |- body_ok (match exec fuel i ?x2 with _ => _ end) => set (xx2 := x2) end.
         assert (G2 : good_ctx xx2).
@@ -410,7 +413,8 @@ Section Faithful.
     - (* fold stream *) discriminate.
     - discriminate.
     - (* never *) cbn [Exec.exec]. apply wrap_ok. cbn. eapply good_keeps; [apply pres_make_incomplete | exact G].
-    - (* new *) cbn [Exec.exec]. apply wrap_ok. cbn [swallow_free] in P. destruct a; try exact I.
+    - (* new *) cbn [Exec.exec]. apply wrap_ok. cbn [swallow_free] in P.
+      destruct a; try exact I; try (apply esi_body_ok; auto; fail).
       + set (x1 := set_scalars x (Scalars.meet_new_start vagg (x_scalars x) (v_name v))).
         pose proof (IH i x1 P (good_keeps _ _ (pres_set_scalars x _) G)) as H.
         destruct (exec fuel i x1) as [y|e y|s| |w]; try exact I.
@@ -419,7 +423,6 @@ Section Faithful.
           -- apply body_err_good; exact H.
         * destruct (Scalars.meet_new_end vagg (x_scalars y) (v_name v)); [|apply res_body; exact H].
           eapply body_ok_keeps_err; [apply pres_set_scalars | apply res_body; exact H].
-      + apply esi_body_ok; auto.
       + set (x1 := set_canons x (Scalars.meet_new_start canon_wp (x_canons x) (v_name v))).
         pose proof (IH i x1 P (good_keeps _ _ (pres_set_canons x _) G)) as H.
         destruct (exec fuel i x1) as [y|e y|s| |w]; try exact I.
@@ -443,7 +446,7 @@ Section Faithful.
           repeat split; auto. apply forallb_iter_put; auto. unfold fs_swallow_free; cbn. rewrite PF1, PF2; reflexivity. }
         pose proof (IH (fs_body fs) xx2 PF1 G2) as H.
         destruct (exec fuel (fs_body fs) xx2) as [y|[c|u] y|s| |w]; try exact I.
-        * cbn [x_iterables set_canons set_scalars].
+        * change (x_iterables (all_next_after y)) with (x_iterables y).
           destruct (iter_get (x_iterables y) (v_name iter)) as [g|] eqn:E2; [|exact I].
           destruct H as (A & B & C).
           pose proof (forallb_iter_get fs_swallow_free _ _ _ C E2) as PG.
@@ -477,24 +480,45 @@ Proof.
   - destruct (is_joinable e); cbn [rkeeps]; auto with keeps.
 Qed.
 
+Lemma pres_with_canon_maps x m : keeps x (with_canon_maps x m). Proof. pres_simple. Qed.
+Lemma pres_with_table t x m : keeps x (with_table t x m). Proof. destruct t; pres_simple. Qed.
+
 Lemma pkeeps_set_canon_value x n c : pkeeps x (set_canon_value x n c).
 Proof. unfold set_canon_value. destruct (Scalars.set_value canon_wp (x_canons x) n c) as [[m b]|e]; cbn; auto with keeps. Qed.
-
-Lemma rkeeps_canon_epilog x n vs t c : rkeeps x (canon_epilog x n vs t c).
+Lemma pkeeps_set_canon_map_value x n c : pkeeps x (set_canon_map_value x n c).
 Proof.
-  unfold canon_epilog.
-  match goal with |- context [set_canon_value x ?a ?b] =>
-    pose proof (pkeeps_set_canon_value x a b) as K; destruct (set_canon_value x a b) end; cbn [lift rkeeps pkeeps] in *; auto with keeps.
+  unfold set_canon_map_value. destruct (Scalars.set_value canon_map_wp (e_canon_maps (x_ext x)) n c) as [[m b]|e]; cbn [pkeeps]; auto.
+  apply pres_with_canon_maps.
 Qed.
 
-Lemma rkeeps_create_canon_first_time x s n p : rkeeps x (create_canon_first_time x s n p).
+Lemma rkeeps_lift_finish x (r : pres ctx) (f : ctx -> xres) :
+  pkeeps x r -> (forall y, rkeeps y (f y)) -> rkeeps x (lift x r f).
+Proof.
+  intros K F. destruct r as [y|e|s|w]; cbn [lift rkeeps pkeeps] in *; auto with keeps.
+  eapply rkeeps_trans; [exact K | apply F].
+Qed.
+
+Lemma rkeeps_canon_epilog k x vs t c : rkeeps x (canon_epilog k x vs t c).
+Proof.
+  unfold canon_epilog.
+  assert (F : forall y, rkeeps y (XOk (set_handler y (meet_canon_end cid (x_handler y) (CanonExecuted c))))).
+  { intros y. cbn. apply pres_set_handler. }
+  destruct k.
+  - apply rkeeps_lift_finish; [apply pkeeps_set_canon_value | exact F].
+  - destruct (negb (kv_pairs_valid vs)); cbn [rkeeps]; [apply pres_refl|].
+    apply rkeeps_lift_finish; [apply pkeeps_set_canon_map_value | exact F].
+  - destruct vs; cbn [rkeeps]; [apply pres_refl|].
+    apply rkeeps_lift_finish; [apply pkeeps_set_scalar_value | exact F].
+Qed.
+
+Lemma rkeeps_create_canon_first_time k tb x s p : rkeeps x (create_canon_first_time k tb x s p).
 Proof.
   unfold create_canon_first_time.
   eapply rkeeps_trans; [|apply rkeeps_canon_epilog].
   eapply pres_trans; [apply pres_set_cids | apply pres_record_cid].
 Qed.
 
-Lemma rkeeps_handle_canon_executed x p n c : rkeeps x (handle_canon_executed x p n c).
+Lemma rkeeps_handle_canon_executed k x p c : rkeeps x (handle_canon_executed k x p c).
 Proof.
   unfold handle_canon_executed. apply rkeeps_lift; intros peer.
   destruct (negb (cid_mem c (cs_canon_results (x_cids x)))); cbn [rkeeps]; auto with keeps.
@@ -505,9 +529,9 @@ Proof.
   eapply rkeeps_trans; [apply pres_record_cid | apply rkeeps_canon_epilog].
 Qed.
 
-Lemma rkeeps_exec_canon x p s c : rkeeps x (exec_canon x p s c).
+Lemma rkeeps_exec_canon_generic k tb x p s : rkeeps x (exec_canon_generic k tb x p s).
 Proof.
-  unfold exec_canon. apply rkeeps_with_handler; intros rh.
+  unfold exec_canon_generic. apply rkeeps_with_handler; intros rh.
   eapply rkeeps_trans; [apply (pres_set_handler x (snd rh))|].
   set (x0 := set_handler x (snd rh)).
   destruct (fst rh) as [|[sender|cc]].
@@ -521,14 +545,28 @@ Proof.
   - apply rkeeps_handle_canon_executed.
 Qed.
 
+Lemma rkeeps_exec_ap_map x k a m : rkeeps x (exec_ap_map x k a m).
+Proof.
+  unfold exec_ap_map. destruct (apply_to_arg x a true) as [v|e|s|w]; cbn [rkeeps]; auto.
+  - apply rkeeps_with_handler; intros rh.
+    eapply rkeeps_trans; [apply (pres_set_handler x (snd rh))|].
+    set (x0 := set_handler x (snd rh)).
+    destruct (resolve_map_key x0 k) as [key|e|s|w]; cbn [rkeeps]; auto.
+    + match goal with |- context [Stream.streams_add_stream_value ?a ?b ?c ?d ?e ?f] =>
+        destruct (Stream.streams_add_stream_value a b c d e f) end; cbn [rkeeps]; auto with keeps.
+      eapply pres_trans; [apply pres_with_table | apply pres_set_handler].
+    + destruct (is_joinable e); cbn [rkeeps]; auto with keeps.
+  - destruct (is_joinable e); cbn [rkeeps]; auto with keeps.
+Qed.
+
 Lemma rkeeps_run_compact_plan x pl : rkeeps x (run_compact_plan x pl).
 Proof. unfold run_compact_plan. destruct (Stream.run_plan (update_generation cid) (x_handler x) pl); cbn; auto with keeps. Qed.
 
-Lemma rkeeps_new_stream_epilog x n : rkeeps x (new_stream_epilog x n).
+Lemma rkeeps_new_stream_epilog t x n : rkeeps x (new_stream_epilog t x n).
 Proof.
   unfold new_stream_epilog.
-  destruct (Stream.streams_meet_scope_end vagg va_pos (streams_of x) n) as [[[m o] pl]| |]; cbn [rkeeps]; auto with keeps.
-  eapply rkeeps_trans; [apply pres_with_streams | apply rkeeps_run_compact_plan].
+  destruct (Stream.streams_meet_scope_end vagg va_pos (table_of t x) n) as [[[m o] pl]| |]; cbn [rkeeps]; auto with keeps.
+  eapply rkeeps_trans; [apply pres_with_table | apply rkeeps_run_compact_plan].
 Qed.
 
 Lemma rkeeps_with_trace x r k : (forall y, keeps x y -> rkeeps y (k y)) -> rkeeps x (with_trace x r k).
@@ -543,54 +581,86 @@ Proof.
   apply H. eapply good_keeps; [apply pres_set_handler | exact G].
 Qed.
 
+Lemma exec_new_stream_ok t run x sv body sp :
+  faithful_run run -> swallow_free body = true -> good_ctx x -> body_ok (exec_new_stream t run x sv body sp).
+Proof.
+  intros R P G. unfold exec_new_stream.
+  match goal with |- context [run body ?z] => set (xx1 := z) end.
+  pose proof (R body xx1 P (good_keeps _ _ (pres_with_table t x _) G)) as H.
+  destruct (run body xx1) as [y|e y|s| |w]; try exact I.
+  - apply rkeeps_body_ok with (x := y); auto. apply rkeeps_new_stream_epilog.
+  - pose proof (rkeeps_new_stream_epilog t y (v_name sv)) as K.
+    destruct (new_stream_epilog t y (v_name sv)) as [y'|e' y'|s| |w]; cbn [rkeeps] in K; try exact I.
+    + eapply body_ok_keeps_err; [exact K | apply res_body; exact H].
+    + eapply body_ok_keeps_err; [exact K | apply res_body; exact H].
+Qed.
+
+Lemma exec_new_canon_map_ok run x v body :
+  faithful_run run -> swallow_free body = true -> good_ctx x -> body_ok (exec_new_canon_map run x v body).
+Proof.
+  intros R P G. unfold exec_new_canon_map.
+  match goal with |- context [run body ?z] => set (xx1 := z) end.
+  pose proof (R body xx1 P (good_keeps _ _ (pres_with_canon_maps x _) G)) as H.
+  destruct (run body xx1) as [y|e y|s| |w]; try exact I.
+  - destruct (Scalars.meet_new_end canon_map_wp (e_canon_maps (x_ext y)) (v_name v)); cbn [lift].
+    + cbn [body_ok]. eapply good_keeps; [apply pres_with_canon_maps | exact H].
+    + apply body_err_good; exact H.
+  - destruct (Scalars.meet_new_end canon_map_wp (e_canon_maps (x_ext y)) (v_name v)); [|apply res_body; exact H].
+    eapply body_ok_keeps_err; [apply pres_with_canon_maps | apply res_body; exact H].
+Qed.
+
+Lemma exec_next_stream_ok run x iter fs fold_id :
+  faithful_run run -> good_ctx x -> iter_get (x_iterables x) (v_name iter) = Some fs ->
+  body_ok (exec_next_stream run x iter fs fold_id).
+Proof.
+  intros R G EI.
+  pose proof G as (GA & GB & GC).
+  pose proof (forallb_iter_get fs_swallow_free _ _ _ GC EI) as PF. unfold fs_swallow_free in PF. apply andb_true_iff in PF as (PF1 & PF2).
+  unfold exec_next_stream.
+  apply body_ok_with_trace; auto. intros x0 G0.
+  destruct (it_next (fs_iterable fs)) as [moved it'].
+  destruct (negb moved).
+  + apply body_ok_with_trace; auto. intros x1 G1.
+    destruct (fs_last fs) as [li|].
+    * apply res_body, R; [exact PF2 | eapply good_keeps; [apply pres_flush_complete | exact G1]].
+    * destruct (negb (fs_back_started fs)); [|exact G1].
+      destruct G1 as (A & B & C). unfold good_ctx, err_ok, iters_swallow_free in *. cbn.
+      repeat split; auto. apply forallb_iter_put; auto. unfold fs_swallow_free; cbn. rewrite ?PF1, ?PF2; reflexivity.
+  + destruct (it_peek it'); [|exact I].
+    apply body_ok_with_trace.
+    { destruct G0 as (A & B & C). unfold good_ctx, err_ok, iters_swallow_free in *. cbn.
+      repeat split; auto. apply forallb_iter_put; auto. unfold fs_swallow_free; cbn. rewrite PF1, PF2; reflexivity. }
+    intros x2 G2.
+    match goal with |- context [run (fs_body fs) ?z] => set (xx3 := z) end.
+    assert (G3 : good_ctx xx3) by (eapply good_keeps; [apply pres_all_next_before | exact G2]).
+    pose proof (R (fs_body fs) xx3 PF1 G3) as H.
+    destruct (run (fs_body fs) xx3) as [y|[c|u] y|s| |w]; try exact I.
+    * change (x_iterables (all_next_after y)) with (x_iterables y).
+      destruct (iter_get (x_iterables y) (v_name iter)) as [g|] eqn:E2; [|exact I].
+      destruct H as (A & B & C).
+      pose proof (forallb_iter_get fs_swallow_free _ _ _ C E2) as PG.
+      apply body_ok_with_trace; [|intros; assumption].
+      unfold good_ctx, err_ok, iters_swallow_free in *. cbn.
+      repeat split; auto. apply forallb_iter_put; auto.
+    * destruct H as (A & B & C). unfold iters_swallow_free in *. cbn. auto.
+Qed.
+
 Lemma stream_instr_faithful : esi_faithful stream_instr.
 Proof.
   intros run R i x r P G E.
   destruct i; cbn [stream_instr] in E; try discriminate.
   - (* ap *) destruct r0; inversion E; subst. apply rkeeps_body_ok with (x := x); auto. apply rkeeps_exec_ap_stream.
-  - (* canon *) inversion E; subst. apply rkeeps_body_ok with (x := x); auto. apply rkeeps_exec_canon.
-  - (* new *) destruct a; inversion E; subst. clear E. cbn [swallow_free] in P. unfold exec_new_stream.
-    match goal with |- context [run i ?z] => set (xx1 := z) end.
-    pose proof (R i xx1 P (good_keeps _ _ (pres_with_streams x _) G)) as H.
-    destruct (run i xx1) as [y|e y|s| |w]; try exact I.
-    + apply rkeeps_body_ok with (x := y); auto. apply rkeeps_new_stream_epilog.
-    + pose proof (rkeeps_new_stream_epilog y (v_name v)) as K.
-      destruct (new_stream_epilog y (v_name v)) as [y'|e' y'|s| |w]; cbn [rkeeps] in K; try exact I.
-      * eapply body_ok_keeps_err; [exact K | apply res_body; exact H].
-      * eapply body_ok_keeps_err; [exact K | apply res_body; exact H].
+  - (* ap map *) inversion E; subst. apply rkeeps_body_ok with (x := x); auto. apply rkeeps_exec_ap_map.
+  - (* canon *) inversion E; subst. apply rkeeps_body_ok with (x := x); auto. apply rkeeps_exec_canon_generic.
+  - (* canon map *) inversion E; subst. apply rkeeps_body_ok with (x := x); auto. apply rkeeps_exec_canon_generic.
+  - (* canon stream map scalar *) inversion E; subst. apply rkeeps_body_ok with (x := x); auto. apply rkeeps_exec_canon_generic.
+  - (* new *) cbn [swallow_free] in P.
+    destruct a; inversion E; subst; clear E;
+      first [apply exec_new_stream_ok; assumption | apply exec_new_canon_map_ok; assumption].
   - (* next *)
     destruct (iter_get (x_iterables x) (v_name iter)) as [fs|] eqn:EI; [|discriminate].
     destruct (fs_type fs) as [|fold_id] eqn:ET; inversion E; subst; clear E.
-    pose proof G as (GA & GB & GC).
-    pose proof (forallb_iter_get fs_swallow_free _ _ _ GC EI) as PF. unfold fs_swallow_free in PF. apply andb_true_iff in PF as (PF1 & PF2).
-    unfold exec_next_stream.
-    apply body_ok_with_trace; auto. intros x0 G0.
-    destruct (it_next (fs_iterable fs)) as [moved it'].
-    destruct (negb moved).
-    + apply body_ok_with_trace; auto. intros x1 G1.
-      destruct (fs_last fs) as [li|].
-      * apply res_body, R; [exact PF2 | eapply good_keeps; [apply pres_flush_complete | exact G1]].
-      * destruct (negb (fs_back_started fs)); [|exact G1].
-        destruct G1 as (A & B & C). unfold good_ctx, err_ok, iters_swallow_free in *. cbn.
-        repeat split; auto. apply forallb_iter_put; auto. unfold fs_swallow_free; cbn. rewrite ?PF1, ?PF2; reflexivity.
-    + destruct (it_peek it'); [|exact I].
-      apply body_ok_with_trace.
-      { destruct G0 as (A & B & C). unfold good_ctx, err_ok, iters_swallow_free in *. cbn.
-        repeat split; auto. apply forallb_iter_put; auto. unfold fs_swallow_free; cbn. rewrite PF1, PF2; reflexivity. }
-      intros x2 G2.
-      match goal with |- context [run (fs_body fs) ?z] => set (xx3 := z) end.
-      assert (G3 : good_ctx xx3).
-      { eapply good_keeps; [|exact G2]. eapply pres_trans; [apply pres_set_scalars | apply pres_set_canons]. }
-      pose proof (R (fs_body fs) xx3 PF1 G3) as H.
-      destruct (run (fs_body fs) xx3) as [y|[c|u] y|s| |w]; try exact I.
-      * cbn [x_iterables set_canons set_scalars].
-        destruct (iter_get (x_iterables y) (v_name iter)) as [g|] eqn:E2; [|exact I].
-        destruct H as (A & B & C).
-        pose proof (forallb_iter_get fs_swallow_free _ _ _ C E2) as PG.
-        apply body_ok_with_trace; [|intros; assumption].
-        unfold good_ctx, err_ok, iters_swallow_free in *. cbn.
-        repeat split; auto. apply forallb_iter_put; auto.
-      * destruct H as (A & B & C). unfold iters_swallow_free in *. cbn. auto.
+    apply exec_next_stream_ok; auto.
 Qed.
 
 (* ------------------------------------------------------------------------------------------ *)
